@@ -16,7 +16,7 @@ ASSUMPTIONS = ["pre-emptive thread switches inside one line step are outside the
 
 
 def bounds(tier):
-    return {"quick": "matcher histories x keyword roles (en/fr) x <=1 symbolic char; 3 document histories x 3 families; nested schedules i<=9, j<=6; kind-level reuse every 4th prefix; compile histories (rules)",
+    return {"quick": "matcher histories x keyword roles (en/fr) x <=1 symbolic char; step keywords of every dialect pair that types one keyword string differently, on a reused matcher; 3 document histories x 3 families; nested schedules i<=9, j<=6; kind-level reuse every 4th prefix; compile histories (rules)",
             "thorough": "all families x all histories (text pieces <= 1 char), matcher histories with <= 1-2 symbolic chars, every prefix"}[tier]
 
 
@@ -26,6 +26,12 @@ def conditions(tier):
     for d, o in ((("en", "fr"),) if q else (("en", "fr"), ("fr", "en"))):
         for mode in (("history", "dirty") if q else ("history", "dirty", "history2")):
             cs.append(Cond("harness.kw", "keyword_in_role", {"dialect": d, "mode": mode, "other": o, "maxlen": 0 if q else 1}, T=900, reach=["in-role"]))
+    from . import _kwpairs
+    for d, o in _kwpairs.colliding_pairs():
+        # the earlier document used a dialect that gives one of this dialect's step keywords another type
+        for mode in (("history",) if q else ("history", "history2", "dirty")):
+            cs.append(Cond("harness.kw", "keyword_in_role", {"dialect": d, "mode": mode, "other": o, "maxlen": 0, "steps_only": True}, T=900, reach=["in-role"],
+                           label="kw.step_keywords[%s after %s,%s]" % (d, o, mode)))
     hist = [["lang", "fr"], ["touch", "Soit x"], ["open", '      """'], ["touch", "y"], ["reset"]]
     for kind, head in (("Other", ""), ("DocStringSeparator", '"""'), ("DocStringSeparator", "```"), ("StepLine", "Given "), ("TableRow", "|"), ("ScenarioLine", "Scenario:")):
         cs.append(Cond("harness.line", "line_after_history", {"kind": kind, "head": head, "history": hist, "maxlen": 1 if q else 2, "maxind": 2}, T=600,
